@@ -8,6 +8,15 @@
 #include <nstd/PoolList.hpp>
 #include <nstd/System.hpp>
 
+#ifdef LIBNSTD_VERIF
+// verification hooks (off unless built with -DLIBNSTD_VERIF; no-ops unless the harness defines the weak symbols)
+extern "C" void libnstd_verif_point(int id) __attribute__((weak));
+extern "C" void libnstd_verif_pool_config(usize* minThreads, usize* maxThreads, usize* queueSize) __attribute__((weak));
+#define VERIF_POINT(id) do { if(libnstd_verif_point) libnstd_verif_point(id); } while(0)
+#else
+#define VERIF_POINT(id) ((void)0)
+#endif
+
 class Future<void>::Private
 {
 public:
@@ -87,12 +96,17 @@ public:
       Job job = {proc, args};
       while (!_queue.push(job))
       {
+        VERIF_POINT(12);
         _dequeuedSignal.reset();
+        VERIF_POINT(13);
         if (_queue.push(job))
           break;
+        VERIF_POINT(14);
         _dequeuedSignal.wait();
       }
+      VERIF_POINT(15);
       _enqueuedSignal.set();
+      VERIF_POINT(16);
 
       // adjust worker thread count
       usize pushedJobs = Atomic::increment(_pushedJobs);
@@ -126,6 +140,7 @@ public:
             }
             if (context)
             {
+              VERIF_POINT(17);
               context->_pool = this;
               if (!context->_thread.start(*context, &ThreadContext::proc))
                 context->_terminated = true;
@@ -137,6 +152,7 @@ public:
           Mutex::Guard guard(_mutex);
           if (_threadCount > _minThreads)
           {
+            VERIF_POINT(18);
             Job job = {0, 0};
             if (_queue.push(job))
               --_threadCount;
@@ -175,12 +191,16 @@ public:
         {
           while (!queue.pop(job))
           {
+            VERIF_POINT(8);
             enqueuedSignal.reset();
+            VERIF_POINT(9);
             if (queue.pop(job))
               break;
+            VERIF_POINT(10);
             enqueuedSignal.wait();
           }
           dequeuedSignal.set();
+          VERIF_POINT(11);
           if (job.proc)
           {
             job.proc(job.args);
@@ -231,6 +251,7 @@ Future<void>::Private::Framework::~Framework()
 void Future<void>::set()
 {
   Atomic::swap(_state, _aborting ? abortedState : finishedState);
+  VERIF_POINT(19);
   _sig.set();
 }
 
@@ -243,6 +264,15 @@ void Future<void>::startProc(void (*proc)(void *), void *args)
       ;
     if (!(threadPool = Private::_threadPool))
     {
+#ifdef LIBNSTD_VERIF
+      if (libnstd_verif_pool_config)
+      {
+        usize minThreads = 0, maxThreads = System::getProcessorCount(), queueSize = 0x100;
+        libnstd_verif_pool_config(&minThreads, &maxThreads, &queueSize);
+        threadPool = new Private::ThreadPool(minThreads, maxThreads, queueSize);
+      }
+      else
+#endif
       threadPool = new Private::ThreadPool;
       Atomic::swap(Private::_threadPool, threadPool);
     }
@@ -307,7 +337,9 @@ inline bool Future<void>::Private::LockFreeQueue<T>::push(const T &data)
     if ((next = Atomic::compareAndSwap(_tail, tail, tail + 1)) == tail)
       break;
   }
+  VERIF_POINT(1);
   new (&node->data) T(data);
+  VERIF_POINT(2);
   Atomic::swap(node->head, tail);
   return true;
 }
@@ -325,8 +357,10 @@ inline bool Future<void>::Private::LockFreeQueue<T>::pop(T &result)
     if ((next = Atomic::compareAndSwap(_head, head, head + 1)) == head)
       break;
   }
+  VERIF_POINT(3);
   result = node->data;
   (&node->data)->~T();
+  VERIF_POINT(4);
   Atomic::swap(node->tail, head + _capacity);
   return true;
 }
@@ -334,18 +368,25 @@ inline bool Future<void>::Private::LockFreeQueue<T>::pop(T &result)
 void Future<void>::Private::FastSignal::set()
 {
   if (Atomic::testAndSet(_state) == 0)
+  {
+    VERIF_POINT(5);
     _signal.set();
+  }
 }
 
 void Future<void>::Private::FastSignal::reset()
 {
   if (Atomic::swap(_state, 0) == 1)
+  {
+    VERIF_POINT(6);
     _signal.reset();
+  }
 }
 
 bool Future<void>::Private::FastSignal::wait()
 {
   if (Atomic::load(_state))
     return true;
+  VERIF_POINT(7);
   return _signal.wait();
 }
